@@ -165,6 +165,19 @@ pub fn in_packet_case(ctx: &mut Ctx, ls: &crate::pkt::Layouts, compressed: bool,
     }
 }
 
+/// the same bytes from a reader that hands them over `per` at a time: same identifier, reader left right behind the field
+/// (model line: Reader.decodeFrom 4 over the same pieces — theorem C13.segmented_read)
+fn segmented_case(ctx: &mut Ctx, w: &[u8], per: usize) {
+    let whole = read_veh(&w[..w.len().min(4)]).map(|r| r.map(|v| veh_token(&v)));
+    let w2 = w.to_vec();
+    let piecewise = guard(move || { let mut r = Dribble::new(&w2, per); let v = Vehicle::read_le(&mut r).map(|v| veh_token(&v)).map_err(|_| ()); (v, r.inner.position()) });
+    ctx.case(&format!("veh.seg {} {}", hex(w), per), &match &piecewise { Some((Ok(t), pos)) => format!("ok {} at {}", t, pos), Some((Err(()), _)) => "err decode".to_string(), None => "panic".to_string() });
+    match piecewise {
+        Some((t, pos)) if Some(t.clone()) == whole && (t.is_err() || pos == 4) => {},
+        other => ctx.violation("c13/segmented-read", "the same four bytes decode differently (or leave the reader elsewhere) when the reader hands them over in pieces", &format!("veh.seg {} {}", hex(w), per), &format!("{:?} at 4", whole), &format!("{:?}", other)),
+    }
+}
+
 pub fn run(ctx: &mut Ctx) {
     if let Some(lines) = ctx.replay.clone() {
         let ls = crate::pkt::load_layouts();
@@ -176,6 +189,11 @@ pub fn run(ctx: &mut Ctx) {
                     let f = unhex(h);
                     for (kind_frames, off) in car_fields(&ls, *m == "c") { if kind_frames.get(1) == f.get(1) { in_packet_case(ctx, &ls, *m == "c", &f, off); } }
                 }
+                continue;
+            }
+            if let Some(rest) = l.strip_prefix("veh.seg ") {
+                let w: Vec<&str> = rest.split_whitespace().collect();
+                if let [h, per] = w.as_slice() { segmented_case(ctx, &unhex(h), per.parse().unwrap_or(1).max(1)); }
                 continue;
             }
             if let Some(h) = l.strip_prefix("veh ") {
@@ -218,18 +236,8 @@ pub fn run(ctx: &mut Ctx) {
                 ctx.violation("c13/short-input-accepted", "fewer than four bytes decode to a car identifier", &format!("veh {}", if short.is_empty() { "-".to_string() } else { hex(short) }), "an error", &veh_token(&v));
             }
         }
-        struct Dribble { inner: Cursor<Vec<u8>>, per: usize }
-        impl std::io::Read for Dribble { fn read(&mut self, buf: &mut [u8]) -> std::io::Result<usize> { let n = buf.len().min(self.per); self.inner.read(&mut buf[..n]) } }
-        impl std::io::Seek for Dribble { fn seek(&mut self, p: std::io::SeekFrom) -> std::io::Result<u64> { self.inner.seek(p) } }
-        for w in [*b"XFG\0", *b"FBM\0", [0, 0, 0, 0], [0x56, 0x34, 0x12, 0x00], [0x56, 0x34, 0x12, 0x80], *b"ABC\0"] {
-            for per in [1usize, 2, 3] {
-                ctx.oracle_eval("dribbling-reader");
-                let whole = read_veh(&w).map(|r| r.map(|v| veh_token(&v)));
-                let piecewise = guard(move || Vehicle::read_le(&mut Dribble { inner: Cursor::new(w.to_vec()), per }).map(|v| veh_token(&v)).map_err(|_| ()));
-                if piecewise != whole {
-                    ctx.violation("c13/segmented-read", "the same four bytes decode differently when the reader hands them over in pieces", &format!("veh {} (reader gives {} byte(s) per call)", hex(&w), per), &format!("{:?}", whole), &format!("{:?}", piecewise));
-                }
-            }
+        for w in [&b"XFG\0"[..], b"FBM\0", &[0, 0, 0, 0], &[0x56, 0x34, 0x12, 0x00], &[0x56, 0x34, 0x12, 0x80], b"ABC\0", b"XFG\0XRT\0", b"UF1\0\x01", b"XF", b"XFG"] {
+            for per in [1usize, 2, 3, 5] { segmented_case(ctx, w, per); }
         }
     }
     // class representatives: boundaries of the three alphanumeric ranges, NUL, high bytes, letters of real names
